@@ -131,22 +131,11 @@ func (l *GoitLogger) WriteHEAD(r *record) error {
 }
 
 func (l *GoitLogger) WriteBranch(r *record, branchName string) error {
-	// init logs
-	logsPath := filepath.Join(l.rootGoitPath, "logs")
-	if _, err := os.Stat(logsPath); os.IsNotExist(err) {
-		if err := os.Mkdir(logsPath, os.ModePerm); err != nil {
-			return fmt.Errorf("fail to make dir %s: %w", logsPath, err)
-		}
-	}
-	logsRefsPath := filepath.Join(logsPath, "refs")
-	if _, err := os.Stat(logsRefsPath); os.IsNotExist(err) {
-		if err := os.Mkdir(logsRefsPath, os.ModePerm); err != nil {
-			return fmt.Errorf("fail to make dir %s: %w", logsRefsPath, err)
-		}
-		logsHeadsPath := filepath.Join(logsRefsPath, "heads")
-		if err := os.Mkdir(logsHeadsPath, os.ModePerm); err != nil {
-			return fmt.Errorf("fail to make dir %s: %w", logsHeadsPath, err)
-		}
+	// init logs: every level that is missing (a run that was killed may have made only some of them)
+	logsRefsPath := filepath.Join(l.rootGoitPath, "logs", "refs")
+	logsHeadsPath := filepath.Join(logsRefsPath, "heads")
+	if err := os.MkdirAll(logsHeadsPath, os.ModePerm); err != nil {
+		return fmt.Errorf("fail to make dir %s: %w", logsHeadsPath, err)
 	}
 
 	// write branch log
